@@ -52,8 +52,12 @@ YESNO = ["yes", "Yes", "YES", "true", "True", "TRUE", "no", "No", "NO", "false",
 EXPRS = [". > 3", ". != ''", "string-length(.) < 10", "1 + 1", "now()", "a  b", " . = 'x' ", "'a  b' = .",
          ". < 5 and . > 1", "‘q’ = .", "“z”", "true()", "yes", "no", "x", "0", "a&b", "<", ">", '"',
          "concat('a', \"b\")", "regex(., '^[a-z]+$')", "count(.) = 1", "{}", "}", "$", "$ {", "a:b", "é", "中",
-         "selected(., 'a')", ". mod 2 = 0", "-1", "if(. = 1, 'a', 'b')", "once()", "uuid()", "NO", "False"]
-MSGS = ["Too big", "Must be  set", "é ü", "a < b", "say \"hi\"", "it's", "x", "yes", "No"]
+         "selected(., 'a')", ". mod 2 = 0", "-1", "if(. = 1, 'a', 'b')", "once()", "uuid()", "NO", "False",
+         # text shaped like XML character / entity references: it is cell text, and must come back as typed
+         "concat('a', '&#10;', 'b')", "'&#x41;' = .", ". != '&#38;'", "&amp;", ". = '&lt;b&gt;'", "&quot;x&quot;", "&#9;", "a &#x;b",
+         "&#0;", "&apos; &#65", "&#xD;&#xA;"]
+MSGS = ["Too big", "Must be  set", "é ü", "a < b", "say \"hi\"", "it's", "x", "yes", "No", "No tab (&#9;) please", "R&amp;D &#x26; co",
+        "line&#10;break"]
 LANGS = ["fr", "en", "French (fr)", "default", "es"]
 
 
